@@ -134,7 +134,7 @@ func c04Config(seed uint64, c int) (*SendScenario, []c04Pos) {
 var c04Kinds = []refsmtpd.Action{{Code: 451, Text: "temporary failure"}, {Code: 550, Text: "permanent failure"}, {Kind: "drop"}}
 
 func (p *c04) Gen(seed uint64, i int, tier string) (any, bool) {
-	nCfg, nRandom := 24, 12000
+	nCfg, nRandom := 60, 60000
 	if tier == "thorough" {
 		nCfg, nRandom = 200, 200000
 	}
